@@ -45,7 +45,7 @@ Proof. exact env_rows_refuted_by_partial_recycle. Qed.
 
 (* What is proved of K here: it survives dispatch, validate-pending, hold, release and every
    rejected transaction, in all states.  The other operations follow below, each with its side
-   conditions (define_step is the refuted one; reset_for_rerun of plan
+   conditions (the full-recycle branch of define_step is the refuted one; reset_for_rerun of plan
    steps and update_hashes on BUILT / OUTDATED files are not covered).  declare_static is covered below. *)
 Theorem C01_K_preserved_partial :
   forall o s, K_b s = true ->
@@ -131,7 +131,7 @@ Proof. exact K_op_exec_end_success. Qed.
    ATTACHED files only: a detached file may keep the output edge of a former producer, and K does
    not look at detached outputs.  Only the boolean is imported here, not C09's proofs. *)
 From SV Require Import model.GraphInv proofs.NoStaleInv proofs.NoStaleOps proofs.NoStaleDelete
-     proofs.NoStaleDeclare proofs.NoStaleAmend proofs.NoStaleAll.
+     proofs.NoStaleDeclare proofs.NoStaleAmend proofs.NoStaleDefine proofs.NoStaleAll.
 
 Theorem C01_K_side_conditions_from_C09_invariant :
   forall s, inv_core_b s = true -> unique_labels s /\ single_producer s.
@@ -193,14 +193,26 @@ Theorem C01_K_preserved_by_OpExecEnd_failure_leaf :
     K_b (apply_op s (OpExecEnd l [] CFailed hs false wd)) = true.
 Proof. exact K_op_exec_end_failure_leaf_inv. Qed.
 
+(* Workflow.define_step whenever it does NOT take the full-recycle branch (Trellis.try_recycle, the
+   branch refuted above: D4).  [recycles l inp env out vol s] = the node exists, is detached and
+   can_recycle holds.  Otherwise the step is created anew (a new node, or a detached node
+   re-created: partial recycle -- its old creator, detached, loses its hash, its input edges are cut,
+   its products, detached like itself, are orphaned) and starts PENDING; inputs, variables and
+   outputs are attached as amend_step does it. *)
+Theorem C01_K_preserved_by_OpDefineStep_without_full_recycle :
+  forall creator l inp env out vol nd s,
+    inv_core_b s = true -> recycles l inp env out vol s = false -> K_b s = true ->
+    K_b (apply_op s (OpDefineStep creator l inp env out vol nd)) = true.
+Proof. exact K_op_define_step_no_recycle. Qed.
+
 (* All of the above in one statement.  [K_side o s] (proofs/NoStaleAll.v) is the side condition of
    transaction [o] in state [s]: True for declare_static, dispatch, validate_pending,
    mark_step_pending, delete_detached, hold, release, reset_interrupted; "every named file is
    UNCONFIRMED / MISSING / CONFIRMED" for update_hashes; "the step is not SUCCEEDED" for
-   amend_step; the leaf-step conditions for reset_for_rerun / reset_to_pending; the protocol
-   conditions of the success or of the failure branch (leaf step) for exec_end; False for
-   define_step (refuted above). *)
-Theorem C01_K_preserved_by_every_transaction_but_define_step :
+   amend_step; "no full recycle" for define_step; the leaf-step conditions for reset_for_rerun /
+   reset_to_pending; the protocol conditions of the success or of the failure branch (leaf step)
+   for exec_end. *)
+Theorem C01_K_preserved_by_every_transaction_partial :
   forall o s, inv_core_b s = true -> K_side o s -> K_b s = true -> K_b (apply_op s o) = true.
 Proof. exact K_preserved_all. Qed.
 
@@ -212,6 +224,17 @@ Theorem C01_K_along_histories_partial :
     (forall pre, inv_core_b (run_ops pre (init_st cap)) = true) ->
     sides_ok (init_st cap) ops -> K_b (run_ops ops (init_st cap)) = true.
 Proof. exact K_history. Qed.
+
+(* The side conditions are met by a real build: every transaction of build 1 of the D4 history
+   (boot, two define_step, dispatch, reset_for_rerun, the successful ends of the plan and of cat,
+   delete_detached).  In build 2 the re-definition of cat IS a full recycle. *)
+Example C01_K_side_conditions_hold_along_build1 : sides_ok (init_st 3) d4_build1.
+Proof. exact sides_ok_build1. Qed.
+
+Example C01_build2_redefinition_is_a_full_recycle :
+  recycles s_cat [s_x] [] [s_y] []
+           (run_ops (d4_build1 ++ firstn 5 d4_build2) (init_st 3)) = true.
+Proof. vm_compute. reflexivity. Qed.
 
 (* The hypotheses are satisfiable: the state after build 1 of the D4 history satisfies the
    invariant and K; and in the middle of that build (cat is RUNNING after reset_for_rerun) the
